@@ -1,8 +1,9 @@
 ---------------------------- MODULE MC_Oracle_q ----------------------------
 EXTENDS MC_Oracle
-c_FORD == <<"f1", "f2">>
+c_FORD == <<"f1", "f2", "f3">>
 F(tok, start, iv, sr, end) == [tok |-> tok, start |-> start, iv |-> iv, sr |-> sr, end |-> end]
 OFF == F("t2", 1000000, 10, 1, 0)
+OFF2 == F("t2", 1000000, 10, 1, 0)
 Cfg(pw, mn, md, ms, fd) == [pw |-> pw, mn |-> mn, md |-> md, ms |-> ms, fd |-> fd, gen |-> [t1 |-> 7, t2 |-> 0], ep |-> 0, rs |-> {0}]
 WithRs(c, rs) == [c EXCEPT !.rs = rs]
 g_RS == {{}, {1}, {2}, {3}, {4}, {5}, {6}, {2, 3}, {2, 4}, {3, 5}, {3, 6}, {4, 7}, {5, 6}, {6, 7}}
@@ -11,26 +12,43 @@ P(a, b, c) == [v1 |-> a, v2 |-> b, v3 |-> c]
 P5 == [v1 |-> 1, v2 |-> 1, v3 |-> 1, v4 |-> 1, v5 |-> 1]
 \* quick: one feeder per configuration; (maxNonce, interval) shapes (2,4) and (1,2); two power vectors
 \* total powers 5 (= 2 mod 3) and 4 (= 1 mod 3); total = 0 mod 3 is in the thorough set
-c_CFGS == { Cfg(P(1,2,2), 2, 2, 2, [f1 |-> F("t1", 1, 4, 2, 0), f2 |-> OFF]),
-            Cfg(P(1,1,2), 1, 2, 2, [f1 |-> F("t1", 1, 2, 2, 0), f2 |-> OFF]) }
+c_CFGS == { Cfg(P(1,2,2), 2, 2, 2, [f1 |-> F("t1", 1, 4, 2, 0), f2 |-> OFF, f3 |-> ABSENT]),
+            \* feeder id # token id: the switched-off feeder is f1 (token t2), the running one is f2 and feeds token t1
+            Cfg(P(1,1,2), 1, 2, 2, [f1 |-> OFF2, f2 |-> F("t1", 1, 2, 2, 0), f3 |-> ABSENT]) }
 \* thorough: three shapes incl. maxDetId = 1 and the (2,2,5) power split
-t_CFGS == c_CFGS \cup { Cfg(P(2,2,5), 2, 1, 2, [f1 |-> F("t1", 1, 5, 2, 0), f2 |-> OFF]),
-                        Cfg(P(1,2,3), 2, 2, 2, [f1 |-> F("t1", 1, 4, 2, 0), f2 |-> OFF]),
+t_CFGS == c_CFGS \cup { Cfg(P(2,2,5), 2, 1, 2, [f1 |-> F("t1", 1, 5, 2, 0), f2 |-> OFF, f3 |-> ABSENT]),
+                        Cfg(P(1,2,3), 2, 2, 2, [f1 |-> F("t1", 1, 4, 2, 0), f2 |-> OFF, f3 |-> ABSENT]),
                         \* 3-block dogfood epoch: validator-set change (force seal) at EndBlock 4, inside the window of the round based at 3
-                        WithEp(Cfg(P(1,1,2), 2, 2, 2, [f1 |-> F("t1", 3, 4, 2, 0), f2 |-> OFF]), 3) }
+                        WithEp(Cfg(P(1,1,2), 2, 2, 2, [f1 |-> F("t1", 3, 4, 2, 0), f2 |-> OFF, f3 |-> ABSENT]), 3) }
+\* feeder id # token id, exhaustively (MC_Oracle_t2.cfg): stop-and-resume at genesis - feeder 1 of t1 ends at block 3
+\* (round 2), feeder 2 resumes t1 at base 4 with round 3 - and two tokens fed in the other order with different counters
+t2_CFGS == { Cfg(P(1,1,2), 2, 2, 3, [f1 |-> F("t1", 1, 4, 2, 3), f2 |-> F("t1", 4, 4, 3, 0), f3 |-> ABSENT]),
+             Cfg(P(1,1,2), 2, 2, 3, [f1 |-> F("t2", 2, 5, 1, 0), f2 |-> F("t1", 1, 4, 2, 0), f3 |-> ABSENT]) }
+\* the same through governance (MC_Oracle_t3.cfg): Upd f1 end 3, then Add t1 (start 4): feeder 3 -> t1
+t3_CFGS == { Cfg(P(1,1,2), 2, 2, 3, [f1 |-> F("t1", 1, 4, 2, 0), f2 |-> OFF, f3 |-> ABSENT]) }
 \* params update + restart while a message is cached (agc.params nil in recache)
-d_CFGS == { Cfg(P(1,1,2), 2, 2, 2, [f1 |-> F("t1", 3, 4, 2, 0), f2 |-> OFF]) }
+d_CFGS == { Cfg(P(1,1,2), 2, 2, 2, [f1 |-> F("t1", 3, 4, 2, 0), f2 |-> OFF, f3 |-> ABSENT]) }
 E(d, p) == [d |-> d, p |-> p]
+t_PSS1 == { <<E("1", 10)>>, <<E("1", 20)>> }
 c_PSS == { <<E("1", 10)>>, <<E("1", 20)>>, <<E("1", 10), E("2", 20)>> }
 t_PSS == c_PSS \cup { <<E("2", 20)>> }
 c_PSS2 == { <<E("1", 10)>> }
 \* generation: two feeders, all four power vectors
-g_CFGS0 == { Cfg(pw, 2, 2, 3, [f1 |-> F("t1", 1, 4, 2, 0), f2 |-> F("t2", 2, 5, 1, 0)]) : pw \in {P(1,1,1), P(1,1,2), P(1,2,2), P(1,1,3), P(1,2,3), P(2,3,3), P(2,2,5), P5} } \cup
-          { Cfg(pw, 1, 2, 3, [f1 |-> F("t1", 2, 2, 2, 0), f2 |-> F("t2", 1, 3, 1, 0)]) : pw \in {P(1,1,1), P(1,2,3)} } \cup
-          { Cfg(pw, 2, 1, 2, [f1 |-> F("t1", 1, 5, 2, 0), f2 |-> F("t2", 2, 4, 1, 4)]) : pw \in {P(1,1,2), P(2,2,5)} } \cup
+g_CFGS0 == { Cfg(pw, 2, 2, 3, [f1 |-> F("t1", 1, 4, 2, 0), f2 |-> F("t2", 2, 5, 1, 0), f3 |-> ABSENT]) : pw \in {P(1,1,1), P(1,1,2), P(1,2,2), P(1,1,3), P(1,2,3), P(2,3,3), P(2,2,5), P5} } \cup
+          { Cfg(pw, 1, 2, 3, [f1 |-> F("t1", 2, 2, 2, 0), f2 |-> F("t2", 1, 3, 1, 0), f3 |-> ABSENT]) : pw \in {P(1,1,1), P(1,2,3)} } \cup
+          { Cfg(pw, 2, 1, 2, [f1 |-> F("t1", 1, 5, 2, 0), f2 |-> F("t2", 2, 4, 1, 4), f3 |-> ABSENT]) : pw \in {P(1,1,2), P(2,2,5)} } \cup
           \* MaxNonce above the package default 3 (replay window, lead L26)
-          { Cfg(pw, 4, 2, 3, [f1 |-> F("t1", 1, 8, 2, 0), f2 |-> F("t2", 4, 8, 1, 0)]) : pw \in {P(1,1,1), P(2,2,5)} }
-g_CFGS == {WithEp(WithRs(c, rs), ep) : c \in g_CFGS0, rs \in g_RS, ep \in {0, 3}}
+          { Cfg(pw, 4, 2, 3, [f1 |-> F("t1", 1, 8, 2, 0), f2 |-> F("t2", 4, 8, 1, 0), f3 |-> ABSENT]) : pw \in {P(1,1,1), P(2,2,5)} }
+\* feeder id # token id (the ids are independent: a token's feeder is replaced by a new one after an end block, tokens
+\* get their feeders in any order); different round counters per token; MaxNonce 2 and 3
+g_CFGSX == { Cfg(pw, 3, 2, 3, [f1 |-> F("t1", 1, 6, 2, 4), f2 |-> F("t1", 5, 6, 3, 0), f3 |-> ABSENT]) : pw \in {P(1,1,2), P(1,2,2)} } \cup
+           { Cfg(pw, 3, 2, 3, [f1 |-> F("t2", 1, 6, 1, 0), f2 |-> F("t1", 2, 7, 2, 0), f3 |-> ABSENT]) : pw \in {P(1,1,2), P(2,2,5)} } \cup
+           { Cfg(pw, 2, 2, 3, [f1 |-> F("t2", 2, 5, 1, 0), f2 |-> F("t1", 1, 4, 2, 0), f3 |-> ABSENT]) : pw \in {P(1,1,2), P(1,2,3)} } \cup
+           { Cfg(pw, 2, 2, 3, [f1 |-> F("t1", 1, 4, 2, 3), f2 |-> F("t1", 4, 4, 3, 0), f3 |-> ABSENT]) : pw \in {P(1,1,2), P(1,1,1)} }
+g_CFGS == {WithEp(WithRs(c, rs), ep) : c \in g_CFGS0 \cup g_CFGSX, rs \in g_RS, ep \in {0, 3}}
+\* feeders a params update may add: resume t1 (after feeder 1 was stopped), a second token's first feeder
+g_ADDS == { [tok |-> "t1", start |-> 5, iv |-> 4], [tok |-> "t1", start |-> 6, iv |-> 6], [tok |-> "t2", start |-> 4, iv |-> 6] }
+t_ADDS == { [tok |-> "t1", start |-> 4, iv |-> 4] }
 g_PSS == { <<E("1", 10)>>, <<E("1", 20)>>, <<E("2", 20)>>, <<E("1", 10), E("2", 20)>>, <<E("2", 20), E("1", 20)>> }
 g_PSSb == { <<E("1", 10)>>, <<E("1", 10), E("2", 20)>>, <<E("2", 20)>> }
 g_PSS2 == { <<E("1", 10)>>, <<E("2", 20)>> }
